@@ -1,22 +1,25 @@
 #!/bin/bash
-# usage: verify_seed.sh <worktree>  — confirms: tests pass with the change, demo fails with it, passes without it
+# usage: verify_seed.sh <worktree> [<demo build dir>]  — confirms: tests pass with the change (default build),
+# demo fails with it, passes without it (demo linked against <demo build dir>, default _build; a second
+# directory is for demos that need a non-default configuration and is rebuilt in both states)
 set -u
 WT=$1
+DB=${2:-_build}
 cd $WT || exit 2
 git diff --quiet -- include src && { echo "no change applied in $WT"; exit 2; }
-LIB=$(ls _build/src/libfoonathan_memory-*.a | head -1)
-build_demo() { g++ -std=c++17 -O1 -g -I$WT/include -I$WT/_build/src -I$WT/include/foonathan/memory _seed/demo.cpp $LIB -lpthread -o _seed/demo.bin 2>&1 | tail -3; }
+LIB=$(ls $DB/src/libfoonathan_memory-*.a | head -1)
+build_demo() { [ "$DB" != _build ] && cmake --build $DB >/dev/null 2>&1; g++ -std=c++17 -O1 -g -I$WT/include -I$WT/$DB/src -I$WT/include/foonathan/memory _seed/demo.cpp $LIB -lpthread -o _seed/demo.bin 2>&1 | tail -3; }
 echo "== with change: build + tests"
 cmake --build _build >/dev/null 2>&1 || { echo "BUILD FAILED with change"; exit 1; }
 _build/test/foonathan_memory_test | tail -3 | head -1
 build_demo
 ( cd _seed && timeout 60 ./demo.bin >/tmp/seed_demo_with.txt 2>&1 ); W=$?
 echo "demo WITH change: exit=$W: $(tail -1 /tmp/seed_demo_with.txt | cut -c1-150)"
-git stash -q
+git diff -- include src > _seed/.verify.patch; git apply -R _seed/.verify.patch  # (git stash is shared between worktrees)
 cmake --build _build >/dev/null 2>&1
 build_demo
 ( cd _seed && timeout 60 ./demo.bin >/tmp/seed_demo_without.txt 2>&1 ); O=$?
 echo "demo WITHOUT change: exit=$O: $(tail -1 /tmp/seed_demo_without.txt | cut -c1-150)"
-git stash pop -q
+git apply _seed/.verify.patch; rm -f _seed/.verify.patch
 rm -f _seed/demo.bin
 if [ $W -ne 0 ] && [ $O -eq 0 ]; then echo "SEED-OK"; else echo "SEED-BAD"; fi
